@@ -207,6 +207,13 @@ def build():
                     body += ["    " * k + f"function n{k}_{_ident(cid)}(x) {{", "    " * (k + 1) + "x += 1;"]
                 body += ["    " * (10 - k) + "}" for k in range(1, 11)]
         put(cid, _wrap(lang, body, cid), lang)
+        # more than 20 000 characters without a single newline (minified bundle, generated table)
+        cid = f"{p}.oneline"
+        if lang == "py":
+            one = "t_" + _ident(cid) + " = [" + ", ".join(str(k) for k in range(4200)) + "]"
+        else:
+            one = "int t_" + _ident(cid) + "[] = {" + ", ".join(str(k) for k in range(4200)) + "};"
+        C[cid] = {"lang": lang, "bytes": one.encode()}
         # banner comments: long runs of comment-leader characters
         cid = f"{p}.banner"
         lead = "#" if lang == "py" else "/"
